@@ -20,7 +20,7 @@ class C17(SolveProperty):
     rule = ("for every generated (framework, solver, encoder, query): a counting run (k SAT calls), then one run per call position 1..min(k,cap) in which the "
             "recording factory's solver returns Unknown at that call; the real call must unwind without an answer at the same call at which the Lean "
             "program aborts; the same for update/query histories of the six dynamic solvers and the recompute wrappers (the i-th SAT call of the history "
-            "reports Unknown: the query in progress must unwind, and the run is compared with the Lean dynamic-solver models up to the abort); plus end-to-end runs of the crustabri binary with a scripted external solver failing in 5 ways at its i-th invocation; "
+            "reports Unknown: the query in progress must unwind, and the run is compared with the Lean dynamic-solver models up to the abort); plus end-to-end runs of the crustabri binary with a scripted external solver failing in 13 ways (exit without output, truncated model, garbage, status without model, empty value line, `s UNKNOWN` / `s INDETERMINATE` and six near misses of the verdict lines) at its i-th invocation; "
             "non-trivial = the fault position was reached")
     assumptions = ["panics are observed through catch_unwind in the harness; the CLI maps them to a non-zero exit status"]
 
@@ -164,7 +164,10 @@ class C17(SolveProperty):
         findings = []
         binp = os.path.join(common.REPO_TARGET, "release", "crustabri")
         fake = os.path.join(common.VERIF, "tools", "fakesolver.py")
-        kinds = ["exit", "truncated", "garbage", "status-only", "empty-v"]
+        kinds = ["exit", "truncated", "garbage", "status-only", "empty-v",
+                 # what real solvers print when they give up, and near misses of the two verdict lines
+                 "status:s_UNKNOWN", "status:s_INDETERMINATE", "status:s_UNSAT", "status:s_unsatisfiable", "status:s_SATISFIABLE_", "status:s__UNSATISFIABLE",
+                 "status:S_UNSATISFIABLE", "status:s_UNSATISFIABLE_(time_limit)"]
         n_runs = 0
         reached = 0
         inst = os.path.join(runner.dir, "inst.af")
@@ -225,7 +228,8 @@ class C18(SolveProperty):
     max_n = 7
     rule = ("random and structured frameworks up to 7 arguments (mostly connected), all solver/encoder configurations and entry points; the counting factory's "
             "number of solve calls is compared with the Lean program's on the same replies and with the bound computed from the reference counts of the "
-            "base semantics per component (PR <= |base|+|PR|+1, ID <= 2|base|+|PR|+2, SST/STG <= (n+2)|base|+3, CO/ST <= 2); runs are cut at 20000 calls, "
+            "base semantics per component (PR <= |base|+|PR|+1, ID <= 2|base|+|PR|+2, SST/STG <= (n+2)|base|+3, CO/ST <= 2); within one preferred-semantics query no solver object "
+            "returns the same model twice (no candidate set examined twice); runs are cut at 20000 calls, "
             "which is how a non-terminating change is reported instead of hanging the check")
     assumptions = SolveProperty.assumptions + ["bounds are evaluated per component and summed over the components a query may touch"]
 
@@ -249,9 +253,37 @@ class C18(SolveProperty):
                 out.append("dyn x kind=%s trace=1 cap=20000 hist=%s" % (kind, ";".join(toks)))
         return out
 
+    @staticmethod
+    def repeated_model(lines):
+        """(solver index, model) if one solver object returned the same model twice in `lines` (one query): in the preferred
+        searches every model is either extended (the next one is strictly larger) or excluded by a blocking clause"""
+        seen = set()
+        for l in lines:
+            if l.startswith("S "):
+                t = l.split(" ")
+                if len(t) >= 4 and t[2] == "s":
+                    key = (t[1], t[3])
+                    if key in seen:
+                        return key
+                    seen.add(key)
+        return None
+
     def judge_dyn(self, case_line, impl, model):
         fs = []
         kind = kv(case_line).get("kind")
+        if kind == "pr":
+            seg = []
+            for l in impl:
+                if l.startswith("Q "):
+                    seg = []
+                seg.append(l)
+                if l.startswith("ans ") or l.startswith("panic"):
+                    dup = self.repeated_model(seg)
+                    if dup:
+                        fs.append(Finding("input", case_line, "a candidate set was examined twice: the SAT solver returned the same model twice within one skeptical query of the dynamic preferred solver",
+                                          "dyn pr · candidate examined twice", {"model": dup[1][:80]}))
+                        return fs
+                    seg = []
         counts = {}
         for l in model:
             if l.startswith("counts "):
@@ -315,6 +347,11 @@ class C18(SolveProperty):
         if any("CALLCAP" in l for l in impl):
             fs.append(Finding("input", case_line, "more than 20000 SAT calls: the query does not terminate within any reasonable bound", entry + " · call cap exceeded"))
             return fs
+        if p.get("sem") == "PR":
+            dup = self.repeated_model(impl)
+            if dup:
+                fs.append(Finding("input", case_line, "a candidate set was examined twice: SAT solver %s returned the same model twice within one preferred-semantics query" % dup[0],
+                                  entry + " · candidate examined twice", {"model": dup[1][:80]}))
         if calls and cl:
             counts = [tuple(int(x) for x in c.split(",")) for c in cl[0][7:].split(";") if c]
             b = self.bound(p, counts)
